@@ -899,6 +899,11 @@ class Engine:
                 mode = self.loop_mode(fn, fr.bb) if callable(self.loop_mode) else self.loop_mode
                 if mode == "cut":
                     if cnt == 0:
+                        # snapshot of the state in which the loop is ENTERED (base case of the inductive argument): scalar
+                        # locals, cursor, and how much of the path condition / event log existed at that moment
+                        st.notes["arrivals"] = st.notes.get("arrivals", ()) + ((fr.bb, {
+                            "locals": dict((k, v) for k, v in fr.locals.items() if isinstance(v, (Int, BoolV, F64))),
+                            "idx": st.notes.get("idx"), "pc_len": len(st.pc), "nev": len(st.events), "fn": fn.name}),)
                         if self.on_header:
                             self.on_header(self, st, fr, fr.bb, "enter")
                         dbg = {}
